@@ -1,9 +1,11 @@
 import re
+from checklib.c16 import pregen as _pregen_templates
 
 CONFIG = dict(
     bin="c07",
     drv="drv_c07",
-    lean_modules=["MahfModel.Props.C07"],
+    lean_modules=["MahfModel.Props.C07", "MahfModel.Props.C07Templates"],
+    pregen=_pregen_templates,
     namespaces=["MahfModel.Props.C07"],
     shrink_lists=["ops"],
     level="proof",
@@ -35,3 +37,5 @@ CONFIG = dict(
                 "best); it is refuted for the firefly template (known finding, recorded). Template wiring is audited by running "
                 "the templates, not by a regenerated static analysis."),
 )
+
+CONFIG["level_text"] = CONFIG["level_text"] + " " + 'Template level: an evaluate-then-update typestate analysis over the component trees is proved sound (reported best = minimum returned, for every execution of an abstract interpreter), and the kernel re-evaluates it by `decide` on the regenerated trees of all 21 templates x 4 parameter points (84 obligations; firefly = false, the recorded finding, with a concrete violating model execution; ILS = not applicable, decided by the run-level check).'
